@@ -81,6 +81,33 @@ def analyse_client(case, ir):
             out.append(Finding("malformed", "sessions disappeared from the snapshot at %d" % t))
             return out
         live_before = [k for k in range(nsess) if not closed[k]]
+        # ---- a burst of overlapping requests (poolreal `b<k>`): every token is one request's outcome
+        if op == "b":
+            toks = res.split("+") if res else []
+            if len(toks) != n or any(x[:1] not in "nu" for x in toks):
+                out.append(Finding("request_failed", "burst of %d requests at %d ended with %s" % (n, t, res)))
+            last_activity = t
+            for x in sorted(toks, key=lambda y: (y[:1] != "u", int(y[1:]) if y[1:].isdigit() else 0)):
+                if x[:1] not in "nu" or not x[1:].isdigit():
+                    continue
+                k = int(x[1:])
+                active += 1
+                peak = max(peak, active)
+                if x[0] == "n":
+                    ndials += 1
+                    if k != nsess:
+                        out.append(Finding("identity", "a new session got index %d but %d sessions exist" % (k, nsess)))
+                    nsess += 1
+                elif k >= nsess or closed[k]:
+                    out.append(Finding("handed_closed", "request at %d was handed session %d, which was closed or never created" % (t, k)))
+                while len(busy) <= k:
+                    busy.append(0); reused.append(False); closed.append(False)
+                busy[k] += 1
+                if x[0] == "u":
+                    reused[k] = True
+                if k < len(flags) and flags[k]:
+                    out.append(Finding("handed_closed", "request at %d got session %d, closed right after being handed out" % (t, k)))
+            nsess = min(nsess, len(closed))
         # ---- requests
         if op in "rac" and res[:1] in "nu":
             try:
@@ -169,15 +196,22 @@ def analyse_bare(case, ir):
     if steps is None or len(steps) != len(ops):
         return [Finding("malformed", "implementation result cannot be read: %s" % ir[:200])]
     closed, prev_idle, dead_unpurged, last_insert = [], 0, 0, None
+    held = set()              # sessions handed out by get_idle_session and not given back since: in use by the caller
     for (t, op, n), (res, idle, sess) in zip(ops, steps):
         flags = [c for c, _ in sess]
         nsess = len(closed)
-        if op == "g" and res.startswith("s"):
+        if op in "gGE" and res.startswith("s") and res[1:].isdigit():
             k = int(res[1:])
-            if k >= nsess or closed[k] or (k < len(flags) and flags[k]):
+            if k >= nsess or closed[k]:
                 out.append(Finding("handed_closed", "get_idle_session at %d returned session %d, which is closed" % (t, k)))
-        if op == "g" and res == "unknown":
-            out.append(Finding("identity", "get_idle_session returned a session that was never inserted"))
+            elif k < len(flags) and flags[k]:
+                out.append(Finding("handed_closed", "get_idle_session at %d (%s) handed out session %d and the pool then closed it: a session in use was torn down by pool housekeeping"
+                                   % (t, "during a reaper pass" if op in "GE" else "plain", k)))
+            held.add(k)
+        if op in "gGE" and res in ("unknown", "get-stuck"):
+            out.append(Finding("identity" if res == "unknown" else "malformed", "get_idle_session at %d: %s" % (t, res)))
+        if op == "i":
+            held.discard(n)
         newly = [k for k in range(min(nsess, len(flags))) if flags[k] and not closed[k]]
         if op == "x":
             for k in newly:
@@ -185,7 +219,15 @@ def analyse_bare(case, ir):
                     out.append(Finding("closed_outside", "session %d closed at %d while session %d was killed" % (k, t, n)))
             if n < nsess and not closed[n]:
                 dead_unpurged += 1
+        elif op in "GE":
+            for k in newly:
+                if k in held and not (res.startswith("s") and res[1:] == str(k)):
+                    out.append(Finding("closed_in_use", "the reaper pass at %d closed session %d, which had been handed out to a caller" % (t, k)))
+            dead_unpurged = 0
         elif op in "te":
+            for k in newly:
+                if k in held:
+                    out.append(Finding("closed_in_use", "the reaper pass at %d closed session %d, which had been handed out to a caller" % (t, k)))
             lb = max(0, prev_idle - dead_unpurged)
             if idle < min(M, lb):
                 out.append(Finding("min_idle", "the reaper pass at %d left %d idle session(s); at least min(min_idle=%d, %d live idle before) must stay" % (t, idle, M, lb)))
@@ -286,13 +328,66 @@ def gen_bare_history(r, long=False):
     return [I, T, M] + ["%d:%s" % (a, b) for a, b in ops]
 
 
+def gen_burst_then_seq(r):
+    """k overlapping requests through gated dials (all complete), all streams finished, then sequential requests:
+    they must reuse the burst's sessions (newest first) without dialling"""
+    I, T, M = r.choice([3000, 10000, 30000]), r.choice([20000, 60000]), r.choice([0, 1, 2])
+    k = r.randint(2, 4)
+    t, ops = r.choice([7, 500, 1200]), []
+    for _ in range(k):
+        t = _avoid_ticks(t + r.choice([3, 10, 40]), I); ops.append((t, "a"))
+    for _ in range(k):
+        t = _avoid_ticks(t + r.choice([3, 10, 40]), I); ops.append((t, "c"))
+    for j in range(k):
+        t = _avoid_ticks(t + r.choice([5, 50]), I); ops.append((t, "d%d" % j))
+    for j in range(r.randint(2, k + 1)):
+        t = _avoid_ticks(t + r.choice([20, 300]), I); ops.append((t, "r"))
+        for q in range(k + j):
+            t = _avoid_ticks(t + 4, I); ops.append((t, "d%d" % q))
+    ops = with_ticks(I, ops, 0)
+    return [I, T, M] + ["%d:%s" % (a, b) for a, b in ops]
+
+
+def gen_slow_pass(r):
+    """bare pool: a reaper pass with several victims, the first ones on transports whose shutdown stalls (close waits its
+    1 s timeout); a request asks for a session while the pass is running (G: periodic task, E: cleanup_expired)"""
+    periodic = r.random() < 0.5
+    I = r.choice([10000, 20000]) if periodic else 60000
+    T = r.choice([100, 300, 1000])
+    M = r.choice([0, 0, 0, 1])
+    nslow, nfast = r.choice([1, 1, 2]), r.choice([1, 2, 3])
+    seqs = r.sample(range(1, 40), nslow + nfast)
+    seqs.sort()
+    if r.random() < 0.3:
+        r.shuffle(seqs)
+    t, ops = 5, []
+    kinds = ["N"] * nslow + ["n"] * nfast
+    if r.random() < 0.25:
+        r.shuffle(kinds)
+    for kd, sq in zip(kinds, seqs):
+        t += r.choice([3, 10]); ops.append((t, "%s%d" % (kd, sq)))
+    for j in range(nslow + nfast):
+        t += r.choice([3, 10]); ops.append((t, "i%d" % j))
+    delay = r.choice([1, 100, 100, 500, 900, 1100, 1900])
+    start = I if periodic else t + T + r.choice([50, 400])
+    ops.append((start, ("G%d" if periodic else "E%d") % delay))
+    end = start + delay + 1000 * nslow + 4500
+    ops.append((end, "g"))
+    ops.append((end + 30, "g"))
+    if periodic:
+        ops = [(a, b) for a, b in ops]
+        k = end // I + 1
+        ops.append((k * I, "t"))
+    return [I, T, M] + ["%d:%s" % (a, b) for a, b in ops]
+
+
 def pool_nontrivial(args):
     ops = [a.split(":")[1] for a in args[3:]]
     seen_req = False
     for o in ops:
         if o[0] in "raci":
             seen_req = True
-        if o[0] in "te" and seen_req:
+        if o[0] in "teGE" and seen_req:
             return len(ops) >= 3
     return False
 
@@ -302,4 +397,7 @@ REAL_CASES = [
     ("real-seq", ["2000", "4000", "1", "100:r", "300:d0", "500:r", "700:d0", "900:r", "1100:d1", "1300:r"]),
     # min_idle 0, a stream stays open across two reaper passes (interval = timeout = 1.5 s), then a new request
     ("real-reap", ["1500", "1500", "0", "200:r", "1500:t", "3000:t", "3500:r"]),
+    # three overlapping requests dial three sessions; once their streams are finished, three sequential requests must
+    # reuse them, newest first, without a fourth connection
+    ("real-burst", ["4000", "8000", "1", "100:b3", "600:d0", "650:d1", "700:d2", "800:r", "900:d2", "1000:r", "1100:d1", "1200:r"]),
 ]
